@@ -24,6 +24,15 @@ func newRootGeneratorSimple(r io.Reader) *rootGeneratorSimple {
 	}
 }
 
+// readErrOr returns the reader's error if reading failed: the scanner then hands out the truncated
+// rest of the input as a last line, and a parse error on that line is only a consequence.
+func (rg *rootGeneratorSimple) readErrOr(err error) error {
+	if rerr := rg.scanner.Err(); rerr != nil {
+		return rerr
+	}
+	return err
+}
+
 func (rg *rootGeneratorSimple) generate() ([]*Node, error) {
 	var (
 		stack *stack
@@ -33,7 +42,7 @@ func (rg *rootGeneratorSimple) generate() ([]*Node, error) {
 	for rg.scanner.Scan() {
 		currentNode, err := rg.nodeGenerator.generate(rg.scanner.Text(), rg.counter.next())
 		if err != nil {
-			return nil, err
+			return nil, rg.readErrOr(err)
 		}
 		if currentNode == nil {
 			continue
@@ -69,7 +78,7 @@ func (rg *rootGeneratorSimple) generateIter() func(yield func(*Node, error) bool
 		for rg.scanner.Scan() {
 			currentNode, err := rg.nodeGenerator.generate(rg.scanner.Text(), rg.counter.next())
 			if err != nil {
-				yield(nil, err)
+				yield(nil, rg.readErrOr(err))
 				return
 			}
 			if currentNode == nil {
